@@ -37,6 +37,9 @@ def apply(b, kw):
     if op == "nested_mut":  # mutates a list nested inside the received dict
         kw[b[1]]["items"].append(kw[b[2]])
         return tuple(kw[b[1]]["items"])
+    if op == "tuple_mut":  # the argument is a tuple whose FIRST member is a list: mutate that member in place
+        kw[b[1]][0].append(kw[b[2]])
+        return tuple(kw[b[1]][0])
     if op == "snapshot":  # ("snapshot", p...) -> tuple of (type-aware) copies
         return tuple(tuple(kw[p]) if isinstance(kw[p], list) else kw[p] for p in b[1:])
     if op == "pair+":  # two outputs: (p+1, p*2)
